@@ -8,6 +8,7 @@ struct RunCtx {
     std::string prop;           // property the check is run for (selects the workload profile)
     std::string tier;           // quick | thorough
     uint64_t seed = 0;          // run seed
+    unsigned slot = 0, slots = 1;   // engines that enumerate faults per scenario: which fault of the scenario this run injects
     bool has_keep = false;      // replay / minimisation: execute only these op indices
     std::vector<unsigned> keep;
     bool describe = false;      // fill `description`
@@ -46,7 +47,8 @@ const EngineDef* find_engine(const std::string& name);
 
 // engines (X-macro: name -> void engine_<name>(RunCtx&))
 #define ENGINE_LIST \
-    ENGINE_DECL(pipeline)
+    ENGINE_DECL(pipeline) \
+    ENGINE_DECL(fault)
 #define ENGINE_DECL(n) void engine_##n(RunCtx&);
 ENGINE_LIST
 #undef ENGINE_DECL
